@@ -48,6 +48,11 @@ Proof. intros Hl Hn. unfold nm_moves. rewrite Hn, Hl, sort_n_nil. cbn [n_loop]. 
 Lemma null_move_root p s cn in_chk beta ply depth : null_move rec p s true cn in_chk beta ply depth = Some (None, s).
 Proof. reflexivity. Qed.
 
+(* a node in check never tries the null move *)
+Lemma no_null_move_in_check p s is_root cn beta ply depth :
+  null_move rec p s is_root cn true beta ply depth = Some (None, s).
+Proof. unfold null_move. rewrite !andb_false_r. reflexivity. Qed.
+
 (* C03: the best move of the move loop is one of the moves it was given *)
 Lemma n_loop_best_in p in_chk beta ply depth : forall ms idx s alpha best bm r,
   n_loop rec p in_chk beta ply depth ms idx s alpha best bm = Some r ->
